@@ -600,6 +600,8 @@ func (w *world) foreignCandidates() []string {
 	}
 	out := append([]string{}, foreignNames...)
 	out = append(out, "cali"+other+"0"+w.ids[0], "cali"+other+"t0", "felix-"+other+"old")
+	// names that CONTAIN an owned prefix without starting with it (ownership is a prefix, anchored at the start)
+	out = append(out, "bak-felix-all-ipam-pools", "edge-felix-"+w.ver+"-allow", "mycali"+w.ver+"-blocklist", "x-cali"+w.ver+"0"+w.ids[0], "old.felix-masq-ipam-pools")
 	if w.ver == "6" {
 		out = append(out, "felix-masq-ipam-pools")
 	}
